@@ -82,13 +82,15 @@ def _globals(stmt):
     return g + '\n' if g else ''
 
 
-def _program(stmt, ret='empty', name='g', extra=''):
+def _program(stmt, ret='empty', name='g', extra='', after=''):
+    """`extra` is declared before the function under test, `after` behind it (the position of the caller among
+    the overloads must not matter: "first DECLARED overload" is about the overloads' own order)"""
     names = _used(stmt)
     funcs = _pick(_FUNCS, names, '\n')
     locs = _pick(_LOCALS, names, '\n    ')
-    return '%s%s%s%s %s(%s) {\n%s    %s\n}\n' % (
+    return '%s%s%s%s %s(%s) {\n%s    %s\n}\n%s' % (
         _globals(stmt), funcs + '\n' if funcs else '', extra, ret, name, _pick(_PARAMS, names, ', '),
-        '    ' + locs + '\n' if locs else '', stmt)
+        '    ' + locs + '\n' if locs else '', stmt, after)
 
 
 # distinguishable return types for up to three user overloads (second observation of the binding)
@@ -99,13 +101,15 @@ def _sigs(text):
     return [tuple(p for p in s.split(',') if p) for s in text.split(';')]
 
 
-def _overloads(name, sigs, empty_ret=False):
+def _overloads(name, sigs, empty_ret=False, split=None):
     out, rets = [], []
     for k, sig in enumerate(sigs):
         ret, body = ('empty', '') if empty_ret else _RETS[k % len(_RETS)]
         params = ', '.join('%s p%d' % (t, j) for j, t in enumerate(sig))
         out.append('%s %s(%s) { %s }\n' % (ret, name, params, body))
         rets.append(ret)
+    if split is not None:
+        return ''.join(out[:split]), ''.join(out[split:]), rets
     return ''.join(out), rets
 
 
@@ -168,8 +172,10 @@ def render(c):
         return _program('write(%s);' % ', '.join(s), extra=extra), {'name': 'write', 'sigs': sigs, 'rets': None}
     if pos in ('overload', 'overload2', 'arity'):
         sigs = _sigs(tgt)
-        extra, rets = _overloads('f', sigs)
-        return _program('f(%s);' % ', '.join(s), extra=extra), {'name': 'f', 'sigs': sigs, 'rets': rets}
+        import zlib
+        cut = zlib.crc32(('%s|%s' % (tgt, ';'.join(s))).encode()) % (len(sigs) + 1)     # caller after `cut` overloads
+        extra, after, rets = _overloads('f', sigs, split=cut)
+        return _program('f(%s);' % ', '.join(s), extra=extra, after=after), {'name': 'f', 'sigs': sigs, 'rets': rets}
     if pos == 'undeclared':
         return _program('f(%s);' % ', '.join(s)), None
     if pos == 'names':
